@@ -29,17 +29,40 @@ func regExplore(id string, runs []WorldRun, mons func(*worlds.World) []explore.M
 	}})
 }
 
+// The transaction worlds shared by the generic monitors. Replays are history-dependent menu
+// items that only C04 and C26 need; everybody else filters them out, which lets states merge.
+var (
+	wrPayReplay = WorldRun{World: "pay", Quick: b(2, 2, 2), Thorough: b(3, 2, 3)}
+	wrPay       = WorldRun{World: "pay", Quick: b(2, 2, 2), Thorough: b(3, 2, 3), MenuFilter: noReplay}
+	wrCoin      = WorldRun{World: "coin", Quick: b(2, 2, 2), Thorough: b(3, 2, 3), OneEnv: true}
+	wrPool      = WorldRun{World: "pool", Quick: b(2, 2, 2), Thorough: b(3, 2, 2), OneEnv: true}
+	wrBook      = WorldRun{World: "book", Quick: b(2, 2, 2), Thorough: b(3, 2, 3), OneEnv: true}
+	wrStake     = WorldRun{World: "stake", Quick: b(2, 2, 2), Thorough: b(3, 2, 2), OneEnv: true}
+)
+
+// txWorlds are the worlds over which the generic per-transaction monitors run.
+func txWorlds() []WorldRun { return []WorldRun{wrPay, wrCoin, wrPool, wrBook, wrStake} }
+
 func init() {
-	pay := []WorldRun{{World: "pay", Quick: b(2, 2, 2), Thorough: b(3, 2, 3)}}
-	coin := WorldRun{World: "coin", Quick: b(2, 2, 2), Thorough: b(3, 2, 3), OneEnv: true}
-	pay = append(pay, coin)
-	regExplore("C01", pay, one(monitors.Conservation{}))
-	regExplore("C02", pay, one(monitors.NonNegative{}))
-	regExplore("C03", pay, one(monitors.FailedTxOnlyFee{}))
-	regExplore("C22", []WorldRun{coin}, one(monitors.Registry{}))
-	regExplore("C27", pay, one(monitors.Fees{}))
-	regExplore("C04", pay, one(monitors.OnceInOrder{}))
-	regExplore("C07", pay, one(monitors.NoCrash{}))
-	regExplore("C26", pay, one(monitors.ChargedOnce{}))
-	regExplore("C06", []WorldRun{{World: "pay", Quick: b(2, 2, 2), Thorough: b(3, 2, 3), CheckFirst: true}}, one(monitors.CheckEqDeliver{}))
+	regExplore("C01", txWorlds(), one(monitors.Conservation{}))
+	regExplore("C02", txWorlds(), one(monitors.NonNegative{}))
+	regExplore("C03", txWorlds(), one(monitors.FailedTxOnlyFee{}))
+	regExplore("C05", txWorlds(), one(monitors.Authorization{}))
+	regExplore("C22", []WorldRun{wrCoin, wrPool}, one(monitors.Registry{}))
+	regExplore("C27", txWorlds(), one(monitors.Fees{}))
+	regExplore("C04", []WorldRun{wrPayReplay}, one(monitors.OnceInOrder{}))
+	regExplore("C07", txWorlds(), one(monitors.NoCrash{}))
+	regExplore("C21", []WorldRun{wrPay}, one(monitors.Checks{}))
+	regExplore("C26", []WorldRun{wrPayReplay, {World: "pool", Quick: b(2, 2, 1), Thorough: b(2, 2, 2), OneEnv: true, Prepare: addReplayItems}}, one(monitors.ChargedOnce{}))
+	c06 := txWorlds()
+	for i := range c06 {
+		c06[i].CheckFirst = true
+	}
+	regExplore("C06", c06, one(monitors.CheckEqDeliver{}))
+}
+
+// addReplayItems appends the two replay items to a world's menu.
+func addReplayItems(w *worlds.World) {
+	w.Menu = append(w.Menu, worlds.Tx{Name: "replay last", Replay: 1}, worlds.Tx{Name: "replay 2nd last", Replay: 2})
+	w.UsesReplay = true
 }
